@@ -104,7 +104,10 @@ func c10SenderBinding(c *Ctx) {
 	r.Check(!ssax.ReachableAvoiding(fn, mainDo, cut, nil), "C10/R1", "node.processMessage:sender-binding", "the FSM event is reached only when the request's participant id equals the sender's registered id (or the request type has no participant id)", c.PosOf(mainDo),
 		"Do(message.Event, request) is reachable without passing the id comparison")
 	// the lookup's error edge returns
-	for _, lk := range ssax.Calls(fn, false, func(ci ssa.CallInstruction) bool { o := ssax.CalleeObj(ci); return o != nil && o.Name() == "GetIDByUsername" }) {
+	for _, lk := range ssax.Calls(fn, false, func(ci ssa.CallInstruction) bool {
+		o := ssax.CalleeObj(ci)
+		return o != nil && o.Name() == "GetIDByUsername"
+	}) {
 		ne := ssax.NilErrEdgesOfCall(fn, lk)
 		r.Check(len(ne) > 0 && !ssax.ReachableFrom(fn, lk, mainDo, ne, nil), "C10/R1", "node.processMessage:unknown-sender-id", "a sender without a registered id is rejected", c.PosOf(lk), "Do reachable after a failed id lookup")
 	}
